@@ -7,6 +7,7 @@
 
 #include <algorithm>
 #include <cstring>
+#include <functional>
 
 #include "c17_text.h"
 #include "gt.h"
@@ -77,6 +78,17 @@ Expr quotaRhs(Op op, unsigned form)
     case 3: // inside a logbase: base = 2 + |call| >= 2 (relational / logical calls are 0 or 1 already; abs() around them would
             // only reproduce the listed -Wabsolute-value finding in every such case)
         return Expr::make(Op::LOG, {Expr::make(Op::PLUS, {n(2), (isRelational(op) || isLogical(op)) ? call : Expr::make(Op::ABS, {call})}), n(3)});
+    case 5: // below a unary plus, as the left operand of a comparison: "+(a < b) < c", "+(!a) < c"
+        return Expr::make(Op::LT, {Expr::make(Op::PLUS, {call}), n(3)});
+    case 6: // ... and as the right operand: "c == +(a < b)"
+        return Expr::make(Op::EQ, {n(3), Expr::make(Op::PLUS, {call})});
+    case 7: {
+        // a logical result used as a number where the compiler can see it: "1.5/not(2)" in a branch that is never evaluated
+        // (so Python does not raise); for the other operators two unary pluses in a row
+        Expr e = Expr::make(Op::PIECEWISE, {n(3), Expr::make(Op::LT, {n(1), n(2)}), op == Op::NOT ? Expr::make(Op::DIVIDE, {n(1.5), Expr::make(Op::NOT, {n(2)})}) : Expr::make(Op::LT, {Expr::make(Op::PLUS, {Expr::make(Op::PLUS, {call})}), n(3)})});
+        e.hasOtherwise = true;
+        return e;
+    }
     default: // operand of an ordinary operator
         return Expr::make(Op::PLUS, {n(1.5), Expr::make(Op::TIMES, {n(2), call})});
     }
@@ -227,6 +239,42 @@ void injectNlaSystems(GtModel &gt, size_t systems, uint64_t shape, uint64_t orde
     }
     bool ode = gt.voi >= 0;
     gt.expectedType = ode ? "dae" : "nla";
+}
+
+// Degenerate unit scaling: one non-home instance of a connected class gets units "odd_scale" = its old units with
+// multiplier 0 / a negative multiplier / a subnormal multiplier / prefix -400. Validator and analyser accept such models (the
+// units are compatible); the factor between the equivalent variables is then 0, infinite or not a number. The ground truth's
+// values no longer hold for what reads that instance, which is fine here: values are C03's subject.
+std::string injectOddScale(GtModel &gt, uint64_t h)
+{
+    std::vector<std::pair<size_t, size_t>> cand;
+    for (size_t k = 0; k < gt.classes.size(); ++k) {
+        for (size_t i = 1; i < gt.classes[k].inst.size(); ++i) {
+            cand.emplace_back(k, i);
+        }
+    }
+    if (cand.empty()) {
+        return "";
+    }
+    auto pick = cand[h % cand.size()];
+    h /= 97;
+    GtInstance &in = gt.classes[pick.first].inst[pick.second];
+    UnitsSpec us;
+    us.name = "odd_scale";
+    UnitSpec u;
+    u.ref = in.units;
+    std::string kind;
+    switch (h % 4) {
+    case 0: u.multiplier = 0.0; kind = "multiplier-0"; break;
+    case 1: u.multiplier = -1.0; kind = "multiplier-negative"; break;
+    case 2: u.multiplier = 1e-320; kind = "multiplier-subnormal"; break;
+    default: u.prefix = "-400"; kind = "prefix--400"; break;
+    }
+    us.units.push_back(u);
+    gt.spec.units.push_back(us);
+    gt.spec.comps[static_cast<size_t>(in.comp)].vars[static_cast<size_t>(in.var)].units = "odd_scale";
+    in.units = "odd_scale";
+    return kind;
 }
 
 // ---------------------------------------------------------------------------------------------- expectations
@@ -607,10 +655,13 @@ void run(Src &src, Case &c)
     std::vector<std::pair<Op, unsigned>> quotaOps;
     for (size_t i = 0; i < quota; ++i) {
         Op op = H[src.below(H.size())].op;
-        quotaOps.emplace_back(op, static_cast<unsigned>(src.below(5)));
+        quotaOps.emplace_back(op, static_cast<unsigned>(src.below(8)));
         quotaOps.back().second += static_cast<unsigned>(src.below(4)) * 8; // component choice, packed
     }
 
+    // unary pluses around sub-expressions (content-hash driven in the generator, no tape reads); `sub` is otherwise only used by
+    // the non-valid variants
+    opt.unaryPlus = kind < 7 && sub % 2 == 1;
     GtModel gt = genGroundTruthModel(src, opt);
     for (size_t i = 0; i < quotaOps.size(); ++i) {
         injectQuota(quotaOps[i].second / 8, gt, quotaOps[i].first, quotaOps[i].second % 8, i);
@@ -619,6 +670,14 @@ void run(Src &src, Case &c)
     // are otherwise used by the non-valid variants): 0..3 none, 4..5 one, 6..7 two
     const size_t extraNla = kind < 7 ? (rnd[0] % 8 < 4 ? 0 : (rnd[0] % 8 < 6 ? 1 : 2)) : 0;
     injectNlaSystems(gt, extraNla, rnd[1], rnd[2], rnd[3]);
+    // degenerate scaling between connected variables in 1 of 10 valid-model cases (decided by a content hash: no tape read)
+    std::string oddScale;
+    if (kind < 7) {
+        uint64_t hh = hashStr("odd-scale:" + specToText(gt.spec));
+        if (hh % 10 == 0) {
+            oddScale = injectOddScale(gt, hh / 10);
+        }
+    }
     for (const auto &k : gt.counters) {
         c.count("gen:" + k.first, k.second);
     }
@@ -698,7 +757,7 @@ void run(Src &src, Case &c)
     }
 
     Built b = buildApi(gt.spec);
-    c.text = "kind=" + std::to_string(kind) + " mutation=" + (mutation.empty() ? "none" : mutation) + " pool=" + std::to_string(poolMode) + " quota=" + std::to_string(quota) + " extra-nla=" + std::to_string(extraNla) + "\n" + specToText(gt.spec) + "\n" + gt.describe();
+    c.text = "kind=" + std::to_string(kind) + " mutation=" + (mutation.empty() ? "none" : mutation) + " pool=" + std::to_string(poolMode) + " quota=" + std::to_string(quota) + " extra-nla=" + std::to_string(extraNla) + " unary-plus=" + std::to_string(opt.unaryPlus ? 1 : 0) + " odd-scale=" + (oddScale.empty() ? "none" : oddScale) + "\n" + specToText(gt.spec) + "\n" + gt.describe();
     c.weight = c.text.size();
 
     if (mutation == "null-model" || mutation == "fresh-analyser-model" || mutation == "empty-model") {
@@ -864,6 +923,11 @@ void run(Src &src, Case &c)
     c.cls(helperOps == 0 ? "helpers:0" : helperOps <= 2 ? "helpers:1-2" : helperOps <= 5 ? "helpers:3-5" : "helpers:6+");
     c.nontrivial = (am->stateCount() > 0 || x.nla || x.ext) && helperOps > 0;
     if (x.nla) c.cls("nla-system");
+    if (opt.unaryPlus) c.cls("unary-plus-on");
+    if (!oddScale.empty()) {
+        c.cls("odd-scale");
+        c.cls("odd-scale:" + oddScale);
+    }
     {
         // NLA systems as the AnalyserModel reports them, in the order of AnalyserModel::equations()
         std::vector<size_t> order;
@@ -892,6 +956,22 @@ void run(Src &src, Case &c)
     }
     if (gt.spec.comps.size() > 1) c.cls("multi-component");
 
+    bool hasUnaryPlus = false;
+    {
+        std::function<void(const Expr &)> walk = [&](const Expr &e) {
+            hasUnaryPlus = hasUnaryPlus || (e.op == Op::PLUS && e.kids.size() == 1);
+            for (const auto &k : e.kids) {
+                walk(k);
+            }
+        };
+        for (const auto &cs : gt.spec.comps) {
+            for (const auto &e : cs.equations) {
+                walk(e.first);
+                walk(e.second);
+            }
+        }
+    }
+    if (hasUnaryPlus) c.cls("unary-plus-in-model");
     RunPlan plan = makeRunPlan(gt, map);
     plan.externals = x.ext;
     for (size_t i = 0; i < am->variableCount(); ++i) {
@@ -911,7 +991,8 @@ void run(Src &src, Case &c)
         RunResult rc;
         std::string warnings;
         if (!gRunner->runC(iface, impl, plan, rc, &warnings)) {
-            c.fail("C17.run|C|" + rc.error.substr(0, 30), rc.error + "\n--- interface ---\n" + iface.substr(0, 4000) + "\n--- implementation ---\n" + impl.substr(0, 8000));
+            const bool compile = rc.error.rfind("model.c does not compile", 0) == 0;
+            c.fail(!oddScale.empty() && compile ? "C17.nonfinite-scaling|C" : "C17.run|C|" + rc.error.substr(0, 30), rc.error + "\n--- interface ---\n" + iface.substr(0, 4000) + "\n--- implementation ---\n" + impl.substr(0, 8000));
             return;
         }
         c.count("programs");
@@ -928,7 +1009,10 @@ void run(Src &src, Case &c)
                 }
             }
             c.cls("diag:" + f);
-            c.alsoFailed.emplace_back("C17.diagnostic|" + f, "cc -std=c99 -Wall -Wextra reports " + std::to_string(bad.size()) + " diagnostics other than unused-parameter / unused-variable, first of this kind: " + (first.empty() ? bad[0] : first) + "\n--- implementation ---\n" + impl.substr(0, 8000));
+            // the two parenthesisation diagnostics have been repaired for plain operands; what is left needs a unary plus in
+            // between, so a model that contains one gets its own (listed) signature and a regression of the repair stays visible
+            const bool paren = f == "-Wparentheses" || f == "-Wlogical-not-parentheses";
+            c.alsoFailed.emplace_back("C17.diagnostic|" + f + (paren && hasUnaryPlus ? "|with-unary-plus" : ""), "cc -std=c99 -Wall -Wextra reports " + std::to_string(bad.size()) + " diagnostics other than unused-parameter / unused-variable, first of this kind: " + (first.empty() ? bad[0] : first) + "\n--- implementation ---\n" + impl.substr(0, 8000));
         }
         if (warnings.find("[-Wunused-parameter]") != std::string::npos) c.cls("diag:unused-parameter");
         if (warnings.find("[-Wunused-variable]") != std::string::npos) c.cls("diag:unused-variable");
@@ -1001,8 +1085,15 @@ void run(Src &src, Case &c)
         VP_CHECK(c, !impl.empty(), "C17.empty-code|Python", "generator returned empty Python code for a valid analyser model");
         RunResult rp;
         if (!gRunner->runPython(impl, plan, rp)) {
-            c.fail("C17.run|Python|" + rp.error.substr(0, 30), rp.error + "\n--- implementation ---\n" + impl.substr(0, 8000));
-            return;
+            // with a degenerate scaling factor the computed values are infinite / NaN and Python (unlike C) raises on floor(nan),
+            // 1.0/0.0, ...: the module has loaded and the tables were read by then, which is all the property asks for
+            const bool domain = rp.error.rfind("ValueError", 0) == 0 || rp.error.rfind("OverflowError", 0) == 0 || rp.error.rfind("ZeroDivisionError", 0) == 0;
+            if (!oddScale.empty() && domain) {
+                c.count("odd-scale:python-domain-error-not-judged");
+            } else {
+                c.fail(!oddScale.empty() && rp.error.rfind("SyntaxError", 0) == 0 ? "C17.nonfinite-scaling|Python" : "C17.run|Python|" + rp.error.substr(0, 30), rp.error + "\n--- implementation ---\n" + impl.substr(0, 8000));
+                return;
+            }
         }
         c.count("programs");
         checkTables(c, "Python", x, rp, false, &comparisons);
@@ -1039,7 +1130,8 @@ Property property = {
     "translation_validation",
     "rapidcheck tapes drive the ground-truth model generator of C03 (1-4 components, constants / computed constants / algebraic variables / states / NLA systems, expression trees over the MathML operator set) with a per-case operator pool "
     "(no helper-requiring operator / a few / the trigonometric ones / all) plus 0-3 quota equations that each use one helper-requiring operator directly, in a taken or untaken piecewise branch, in a logbase or as an operand; half of the valid cases get 1-2 further NLA systems (1-3 unknowns, literal-only equations with a known solution) whose equations are interleaved with each other and "
-    "with the component's other equations in document order (round-robin or a tape-seeded permutation, re-split into math blocks); 40 % of the "
+    "with the component's other equations in document order (round-robin or a tape-seeded permutation, re-split into math blocks); half of the valid cases switch on the generator's unary pluses, quota forms put a unary plus between comparison operators, and 1 valid case in 10 gives one "
+    "connected variable units whose factor to its equivalent variable is 0 / infinite / not a number (multiplier 0, negative, subnormal, prefix -400); 40 % of the "
     "cases mark 1-2 states/variables external (sometimes through a non-primary equivalent variable); 30 % are made non-valid (equation dropped, duplicate definition, both, variable without units, initialised voi, empty model, null "
     "model, a new analyser's UNKNOWN model). Valid models: C code is compiled (-Wall -Wextra), linked with an address-taking probe and run, Python code is exec'd; counts, every info-table entry, buffer capacities, declared/defined "
     "signatures, enumerators, the set of helper functions defined / called in the text and the objective function / root finder of every NLA system index (defined once, one f[] entry per equation, sized for its unknowns) are compared with the AnalyserModel and with the operators of the equations. Non-valid models: all four code strings are empty. "
